@@ -282,8 +282,19 @@ func scaledSentences() (conds []c09Str, cvals val.Item, upds []c09Str, uvals val
 		"REMOVE l[0], l[0]", "REMOVE l2[0], l2[0]", "REMOVE l2[0], l2[0], l2[0]", "REMOVE l2[0], l2[1]", "REMOVE l[2][0], l[2][0], l[2][1], l[2][1]", "REMOVE l[3], l[3], l[3], l[3], l[3]",
 		"REMOVE l[0] ADD l2 l", "REMOVE l[0] ADD ss l", "REMOVE l[1], l[1] SET cp = l", "REMOVE l[0] SET cp = l[0]", "REMOVE l2[0] SET l2[0] = :one", "REMOVE l2[0] SET l2[3] = :one", "REMOVE l[0] SET l[3] = :one",
 		"SET l[1] = :one REMOVE l[1]", "SET l2[5] = :one, l2[4] = :five", "SET l2[1] = :one, l2[1] = :five", "REMOVE l2[0] SET cp = list_append(l2, l2)", "REMOVE lnul[0], lnul[2] SET cp = lnul",
-		"REMOVE l[2][0] SET l[2] = l[2]", "REMOVE l[0] DELETE ss l"} {
+		"REMOVE l[2][0] SET l[2] = l[2]", "REMOVE l[0] DELETE ss l",
+		// ... and the hostile position where an element is READ, not written
+		"SET cp = l[:neg]", "SET cp = l[:frac]", "SET cp = l[:huge]", "SET cp = l[:str]", "SET cp = l[n]", "SET cp = l[:neg].k", "SET cp = l[1][:neg]", "SET cp = if_not_exists(l[:neg], :one)",
+		"SET cp = list_append(l[:neg], l)", "SET cp = l[:neg] + :one", "ADD n l[:neg]", "SET cp = m.li[:neg]", "SET cp = l[-1]"} {
 		upds = append(upds, c09Str{u, "hostile-list-position"})
+	}
+	cvals[":neg"] = val.Num("-1")
+	cvals[":frac"] = val.Num("1.5")
+	cvals[":huge"] = val.Num("99999999999999999999")
+	for _, c := range []string{"c[:neg] = :v1", "c[:frac] = :v1", "c[:huge] = :v1", "c[:v1] = :v1", "c[b] = :v1", "c[-1] = :v1", "attribute_exists(c[:neg])", "attribute_not_exists(c[:neg])", "size(c[:neg]) > :n1",
+		"c[:neg] IN (:v1, :n1)", "c[:neg] BETWEEN :s1 AND :s2", "contains(c[:neg], :v1)", "begins_with(c[:neg], :v1)", "attribute_type(c[:neg], :v1)", "a = c[:neg]", "c[:neg].x = :v1", "c[1][:neg] = :v1",
+		"d.x[:neg] = :v1", "NOT c[:neg] = :v1", "a = :v1 OR c[:neg] = :v1"} {
+		conds = append(conds, c09Str{c, "hostile-list-position"})
 	}
 	// update expressions that are refused for what they ARE, whatever the item holds: a function with the wrong number of
 	// operands, a function of the condition language, something that is no path as the target of an action. Behind a
